@@ -158,6 +158,19 @@ def direct_value(case, s, e, j):
     return n * math.log(2 * math.pi * float(var)) + float(sum((t - mu) ** 2 for t in col) / var)
 
 
+def gvar_optim_bounds(case, s, e, j):
+    """the interval of values of the optimal-parameter Gaussian cost that differ from the directly
+    computed one only by prefix-sum rounding of the variance: |var_code - var| <= 8 eps n max|x|^2"""
+    col = frac_col(case, j)
+    seg = col[s:e]
+    m = e - s
+    mu = sum(seg) / m
+    var = sum((v - mu) ** 2 for v in seg) / m
+    delta = Fraction(8 * 2.220446049250313e-16 * len(col) * max(1e-300, max(abs(float(v)) for v in col) ** 2))
+    val = lambda v: m * math.log(2 * math.pi * float(max(v, FLOOR))) + m  # noqa: E731
+    return val(var - delta), val(var + delta)
+
+
 def oracle(case, r):
     if r["outcome"] != "ok":
         return f"fit raised {r['outcome']} {r.get('msg', '')}"
@@ -181,7 +194,12 @@ def oracle(case, r):
                 for j in range(p):
                     want = direct_value(case, s, e, j)
                     got = r["vals"][key][j]
-                    if not (abs(got - want) <= 1e-8 * (scale + abs(want))):
+                    lo = hi = want
+                    if case["cost"] == "gvar" and case.get("param") is None:
+                        # prefix-sum rounding error of the variance (absolute, ~eps * rows * max x^2): near the floor it
+                        # decides between the floor and a tiny positive variance, so the admissible values form an interval
+                        lo, hi = gvar_optim_bounds(case, s, e, j)
+                    if not (lo - 1e-8 * (scale + abs(lo)) <= got <= hi + 1e-8 * (scale + abs(hi))):
                         return (f"{case['cost']} {case['mode']} cost of column {j} on [{s},{e}) is {got!r}; computed directly "
                                 f"from the rows it is {want!r}")
             else:
